@@ -171,6 +171,7 @@ type heldReader struct {
 	openWin  int
 	reads    int
 	sawSteps int // background steps seen since open
+	fromDisk bool
 }
 
 type client struct {
@@ -251,6 +252,9 @@ type Run struct {
 	plan        *FaultPlan
 	faultReplay *faultCase
 	osHook      *OSHook
+	commits     int
+	dirInvSeen  int
+	slotBusy    map[int]bool // slot reserved by an operation that is being executed
 	docs       map[string]*DocSpec
 	recovered  map[int]*Content // image index -> recovered content (crash oracle)
 }
@@ -415,6 +419,11 @@ func (r *Run) exec(c *client, op *Op) {
 		if p := recover(); p != nil {
 			r.fail("panic", fmt.Sprintf("%s panicked in %s: %v", c.name, op, p))
 		}
+		if strings.Contains(op.Kind, "reader-") {
+			r.mu.Lock()
+			delete(r.slotBusy, op.Slot)
+			r.mu.Unlock()
+		}
 	}()
 	switch op.Kind {
 	case "open":
@@ -480,6 +489,40 @@ func (r *Run) exec(c *client, op *Op) {
 			return
 		}
 		r.s.Rec("return", "snap-read "+cont.Key(), readData{-1, cont, c.idx})
+	case "second-writer":
+		r.s.Rec("invoke", "second-writer", nil)
+		w2, err := bluge.OpenWriter(r.cfg)
+		r.s.Rec("return", "second-writer "+errStr(err), nil)
+		if err == nil {
+			_ = w2.Close()
+			r.fail("second-writer-accepted", "a second OpenWriter on a directory whose writer is still open succeeded")
+			return
+		}
+		r.probe("second-writer-refused")
+	case "dir-reader-open":
+		r.s.Rec("invoke", "dir-reader-open", nil)
+		startWin := r.s.Win // OpenReader spans several windows; it owes only what was acknowledged before it started
+		rd, err := bluge.OpenReader(r.cfg)
+		r.s.Rec("return", "dir-reader-open "+errStr(err), nil)
+		if err != nil {
+			// opening from disk while the writer removes files may legitimately fail
+			r.probe("live-openreader-failed")
+			return
+		}
+		base, err := ReadAll(rd, r.idspace)
+		if err != nil {
+			r.fail("reader", "first read of a reader opened from the live directory failed: "+err.Error())
+			return
+		}
+		h := &heldReader{r: rd, base: base, openWin: r.s.Win, fromDisk: true}
+		if r.p.ExtRead {
+			h.baseExt = ReadExt(rd)
+		}
+		r.mu.Lock()
+		r.slots[op.Slot] = h
+		r.mu.Unlock()
+		r.probe("live-openreader")
+		r.s.Rec("reader-open", fmt.Sprintf("#%d from disk %s", op.Slot, base.Key()), diskRead{base, startWin})
 	case "reader-open":
 		rd, err := r.w.Reader()
 		if err != nil {
@@ -537,6 +580,10 @@ type readData struct {
 	client int
 }
 type snapInv struct{ client int }
+type diskRead struct {
+	c   *Content
+	win int
+}
 
 func (r *Run) rereadHeld(slot int, h *heldReader) {
 	c, err := ReadAll(h.r, r.idspace)
@@ -658,16 +705,22 @@ func (r *Run) genOp(c *client) *Op {
 	t := r.t
 	if r.p.Readers {
 		free, held := -1, []int{}
+		r.mu.Lock()
 		for i, h := range r.slots {
 			if h == nil {
-				if free < 0 {
+				if free < 0 && !r.slotBusy[i] {
 					free = i
 				}
-			} else {
+			} else if !r.slotBusy[i] {
 				held = append(held, i)
 			}
 		}
+		r.mu.Unlock()
 		switch v := t.Draw(10, "op.class"); {
+		case v == 6 && r.p.DirInv && r.k.Dir == "fs" && t.Chance(1, 2, "op.second"):
+			return &Op{Kind: "second-writer"}
+		case v == 6 && r.p.DirInv && r.k.Dir == "fs" && free >= 0:
+			return &Op{Kind: "dir-reader-open", Slot: free}
 		case v == 7 && free >= 0:
 			return &Op{Kind: "reader-open", Slot: free}
 		case v == 8 && len(held) > 0:
@@ -792,6 +845,11 @@ func (r *Run) release(p *parked) {
 		if c != nil && c.opsLeft > 0 && !r.stopping {
 			c.opsLeft--
 			op := r.genOp(c)
+			if strings.Contains(op.Kind, "reader-") {
+				r.mu.Lock()
+				r.slotBusy[op.Slot] = true
+				r.mu.Unlock()
+			}
 			arg = op
 			r.opsLog = append(r.opsLog, fmt.Sprintf("w%d %s: %s", r.s.Win+1, c.name, op))
 			if r.bgSinceClient > 0 {
@@ -898,6 +956,10 @@ func (r *Run) afterWindow() {
 			}
 		case snapInv:
 			r.callWin[d.client] = e.Win
+		case diskRead:
+			if msg := r.explainDiskRead(d.c, d.win); msg != "" {
+				r.fail("live-openreader-content", msg)
+			}
 		case readData:
 			r.snapReads = append(r.snapReads, d)
 			if d.slot < 0 && r.p.History {
@@ -1061,7 +1123,7 @@ var runCounter int
 func newRun(p *Profile, t *Tape, scratch string) *Run {
 	runCounter++
 	r := &Run{p: p, t: t, stored: map[string]map[string]string{}, acks: map[int]int{}, ackErr: map[int]string{}, invokeSeq: map[int]int{},
-		merging: map[string][]string{}, callWin: map[int]int{}, docs: map[string]*DocSpec{}, recovered: map[int]*Content{}}
+		merging: map[string][]string{}, callWin: map[int]int{}, docs: map[string]*DocSpec{}, recovered: map[int]*Content{}, slotBusy: map[int]bool{}}
 	r.stats.Probes = map[string]int{}
 	r.stats.Faults = map[string]int{}
 	r.root = filepath.Join(scratch, fmt.Sprintf("run-%d", runCounter))
@@ -1226,6 +1288,20 @@ func (r *Run) quiescentChecks() {
 	r.handleAccounting()
 	if r.failed() {
 		return
+	}
+	if r.osHook != nil {
+		if open := r.osHook.OpenFiles(); len(open) > 0 {
+			sort.Strings(open)
+			r.fail("handle-accounting", fmt.Sprintf("after all readers and the writer were closed %d file descriptor(s) under the index directory are still open: %v", len(open), open))
+			return
+		}
+		r.stats.Probes["descriptors-all-closed"]++
+	}
+	if r.p.DirInv && r.k.Dir == "fs" {
+		r.reopenWriterCheck()
+		if r.failed() {
+			return
+		}
 	}
 	if r.k.Dir == "fs" {
 		r.reopenCheck()
